@@ -312,6 +312,14 @@ func c13BuildSpecials() {
 	} {
 		add("pipe-head/expr", e)
 	}
+	// a quoted literal with characters outside ASCII, standing before a pipe (as the head, inside an
+	// operator head, as the argument of a filter that another filter follows)
+	for _, e := range []c13E{
+		c13Pipe(c13Str("é"), c13Call("upper")), c13Pipe(c13P("se"), c13Call("default", c13Str("—ö")), c13Call("upper")), c13Pipe(c13Bin("+", s1, c13Str("ö")), c13Call("upper")),
+		c13Pipe(s1, c13Call("hCat", c13Str("Grüße")), c13Call("lower")), c13Pipe(c13Str("日本"), c13Call("hCat", c13Str("語")), c13Call("hBr")), c13Pipe(c13Str("é"), c13Call("hCat", s1)),
+	} {
+		add("pipe-head/non-ascii-literal", e)
+	}
 	// arguments are expressions too: a call, a call whose own arguments hold a comma, a unary minus
 	for _, e := range []c13E{
 		c13Call("upper", c13Call("trim", c13P("sp"))), c13Call("hSub", n1, c13Call("hDbl", n2)), c13Call("hSub", n1, c13Call("hSum", c13Int(1), c13Int(2))), c13Call("hCat", c13Call("upper", s1), c13Call("lower", s2)),
